@@ -541,6 +541,18 @@ def step (s : State) (toks : List String) : State × String :=
           | .panic => "panic")
       | _, _, _, _ => (s, "bad-op")
     | _, _, _, _, _, _, _ => (s, "bad-op")
+  -- `parsecoth`: `app.ParseCothority` on the file of the last `private` op — `LoadCothority`, `suites.Find`,
+  -- `GetServerIdentity`, then a server is built for that identity: the identity the server runs with
+  | ["parsecoth"] =>
+    match s.lastPriv with
+    | some hc =>
+      (s, match getServerIdentity s.suites s.reg (loadCothority hc) with
+          | .ok si =>
+            -- `newServiceManager`: a service registered with a suite whose key pair the identity lacks ends the process
+            if s.reg.all (fun e => si.services.any (fun sv => sv.name == e.1)) then showGroup [si] else "fatal"
+          | .err => "err"
+          | .panic => "panic")
+    | none => (s, "bad-op")
   | ["resave", hist, n] =>
     -- the loaded configuration is saved to a path that held `hist` before and read again: the file
     -- after `Save` is the saved configuration whatever was there (save-then-load = `loadCothority`)
